@@ -73,6 +73,66 @@ def corruptions(line):
     return out
 
 
+SPEC_MUTANTS = [
+    # (name, property whose design check must refute it, file, old text, new text, family)
+    ('leaf-only stabilisation (defect D1 at model level)', 'C02', 'Semantics.tla',
+     'ELSE IF inc # <<>> THEN Micro(NoEv, 0, SortName(Children(c, inc[1]) \\ conf), <<>>)',
+     'ELSE IF FALSE THEN Micro(NoEv, 0, SortName(Children(c, inc[1]) \\ conf), <<>>)', 'f1'),
+    ('exit order = reverse name order among siblings (defect D2 at model level)', 'C03', 'Semantics.tla',
+     'IN Micro(evr, i, EnterPath(c, l, t.tgt), SortNegDN(c, Subtree(c, ch) \\cap conf))',
+     'IN Micro(evr, i, EnterPath(c, l, t.tgt), SetToSortSeq(Subtree(c, ch) \\cap conf, '
+     'LAMBDA a, b : Depth(c, a) > Depth(c, b) \\/ (Depth(c, a) = Depth(c, b) /\\ a > b)))', 'f1'),
+    ('two transitions of one state are not a non-determinism (defect D3 at model level)', 'C04', 'Semantics.tla',
+     'IN IF ta.src = tb.src \\/ l = 0 \\/ c.kind[l] # "orthogonal" THEN "NonDeterminismError"',
+     'IN IF l = 0 \\/ c.kind[l] # "orthogonal" THEN "NonDeterminismError"', 'f2'),
+    ('left bisect in the event queue (LIFO among equal due times)', 'C05', 'Semantics.tla',
+     'LET pos == Cardinality({i \\in DOMAIN q : q[i].due <= e.due})',
+     'LET pos == Cardinality({i \\in DOMAIN q : q[i].due < e.due})', 'queue'),
+    ('shallow history remembers all descendants', 'C06', 'Semantics.tla',
+     'ELSE conf0 \\cap Children(c, s)', 'ELSE conf0 \\cap Descendants(c, s)', 'hist'),
+]
+
+
+def spec_mutants(rng):
+    """Deliberately wrong variants of the operational spec must be refuted by the design check of the matching
+    property (the declarative formulas are not vacuous, and the model would have found D1-D3 by itself)."""
+    import interp_check
+    rows = []
+    for (name, prop, fname, old, new, fam) in SPEC_MUTANTS:
+        old, new = old.replace('\\\\', '\\'), new.replace('\\\\', '\\')
+        if fam == 'f1':
+            charts = [c for c in gc.family_f1(4)]
+            consts = dict(MaxQ=1, MaxLevel=6)
+        elif fam == 'f2':
+            charts = gc.family_f2(rng, 60)
+            consts = dict(MaxQ=1, MaxLevel=5)
+        elif fam == 'hist':
+            charts = [c for c in gc.family_f1(4) if any(k in ('shallow', 'deep') for k in c['kind'])] + gc.family_hist(rng, 10)
+            consts = dict(MaxQ=1, MaxLevel=8)
+        else:
+            charts = gc.family_f3(rng, 6, nmin=3, nmax=4, tmin=3, tmax=5, nev=2, max_oracle=1)
+            consts = dict(MaxQ=3, MaxClk=1, Delays={0, 1}, Advances={1}, MaxLevel=6)
+        d = tlc.workdir('selftest_specmut_' + prop)
+        path = os.path.join(d, fname)
+        text = open(path).read()
+        if old not in text:
+            rows.append(('spec mutant: ' + name, 'NOT APPLIED (text not found)', False))
+            continue
+        open(path, 'w').write(text.replace(old, new))
+        with open(os.path.join(d, 'ChartsData.tla'), 'w') as f:
+            f.write(gc.tla_charts_module('ChartsData', charts))
+        k = dict(engine.DEFAULT_CONSTS)
+        k.update(consts)
+        k['EmitEdges'] = False
+        defs = ['ASSUME ChartsWF', 'MCProp == [][BadOf("%s", c, G, last\') = {}]_vars' % prop]
+        tlc.write_mc(d, 'Sismic', k, defs=defs, props=['MCProp'], view='View', constraints=['Bounded'])
+        r = tlc.run(d, timeout=900)
+        refuted = 'MCProp is violated' in r['out'] or ('violated' in r['out'] and 'MCProp' in r['out'])
+        rows.append(('spec mutant: ' + name, 'refuted by the design check of %s' % prop if refuted
+                     else 'NOT refuted (%d states)' % r['distinct'], refuted))
+    return rows
+
+
 def main():
     t0 = time.time()
     rng = random.Random(7)
@@ -130,6 +190,7 @@ def main():
     badc = sum(1 for i in range(len(hists)) if (rep[2 * i + 2]['bad'] if isinstance(rep[2 * i + 2]['bad'], list) else []))
     rows.append(('clock: %d recorded operation sequences, uncorrupted' % len(hists), '%d/%d accepted' % (good, len(hists)), good == len(hists)))
     rows.append(('clock: one observed value shifted by 1', '%d/%d rejected' % (badc, len(hists)), badc == len(hists)))
+    rows += spec_mutants(rng)
     ok = all(r[2] for r in rows)
     os.makedirs(os.path.join(tlc.VERIF, 'selftest'), exist_ok=True)
     with open(os.path.join(tlc.VERIF, 'selftest', 'RESULTS.md'), 'w') as f:
